@@ -172,6 +172,24 @@ func C14(r *eng.Run) {
 	})
 	r.Phase("A1 round trip", t0, nil)
 
+	// R: values reached by operation sequences (whatever encoding the library returned)
+	reachedPhase(r, "R values reached by operation sequences", reachedAll(r), func(w *eng.W, b ref.Bits, v ref.Val) {
+		d := D(b)
+		for bi, buf := range [][]byte{nil, make([]byte, 0, 16), bytes.Repeat([]byte{0xa5}, 40)} {
+			w.Set1I("Decompose", "", b, int64(bi))
+			form, neg, coef, exp := d.Decompose(buf)
+			w.Eval()
+			if form != 0 || neg != v.Neg || !sameValueParts(coef, int(exp), v) {
+				w.R.Fail(eng.Case{Op: "Decompose", Args: []string{b.Hex(), itoa(bi)}, Got: fmt.Sprintf("form=%d neg=%v coef=%x exp=%d", form, neg, coef, exp), Want: v.String()})
+				continue
+			}
+			var d2 dec.Decimal
+			if err := d2.Compose(form, neg, coef, exp); err != nil || !Same(B(d2), v) {
+				w.R.Fail(eng.Case{Op: "Compose(Decompose)", Args: []string{b.Hex(), itoa(bi)}, Got: fmt.Sprint(V(d2), " err=", err), Want: v.String()})
+			}
+		}
+	})
+
 	t0 = time.Now()
 	maxz := 120
 	r.Bounds["max_trailing_zeros"] = "every z to 120, plus {150,200,240,241,300,500,1000,2407,2500}"
